@@ -2,18 +2,20 @@
 Every program is deterministic and straight enough for one concrete execution to be its only execution."""
 import itertools
 
-CONNECTORS = ["assign", "binop", "call_return", "field", "element", "dict", "closure", "global", "tuple", "branch", "loop_once", "augmented"]
+CONNECTORS = ["assign", "binop", "call_return", "field", "element", "dict", "closure", "global", "tuple", "branch", "loop_once", "augmented",
+              "list_append", "field_append", "dict_append", "method_store", "alias_field"]
 SOURCES = ["call", "param"]
 SINKS = ["direct", "callee"]
 
 
 class Chain:
-    def __init__(self, source, connectors, sink):
-        self.source, self.connectors, self.sink = source, list(connectors), sink
-        self.name = "%s__%s__%s" % (source, "_".join(connectors) or "none", sink)
+    def __init__(self, source, connectors, sink, split=False):
+        self.source, self.connectors, self.sink, self.split = source, list(connectors), sink, split
+        self.name = "%s__%s__%s%s" % (source, "_".join(connectors) or "none", sink, "@split" if split else "")
 
     def render(self):
-        top, body = ["G0 = None", "", "class Box:", "    def __init__(self):", "        self.f = None", ""], []
+        top, body = ["G0 = None", "", "class Box:", "    def __init__(self):", "        self.f = None", "        self.items = []", "",
+                     "    def put(self, a):", "        self.f = a", ""], []
         n = [0]
 
         def fresh():
@@ -51,6 +53,16 @@ class Chain:
                 body += ["setg%d(%s)" % (i, cur), "%s = G0" % nv]
             elif k == "branch":
                 body += ["if 1 > 0:", "    %s = %s" % (nv, cur), "else:", '    %s = "clean"' % nv]
+            elif k == "list_append":
+                body += ["ls%d = []" % i, "ls%d.append(%s)" % (i, cur), "%s = ls%d[0]" % (nv, i)]
+            elif k == "field_append":
+                body += ["ob%d = Box()" % i, "ob%d.items.append(%s)" % (i, cur), "%s = ob%d.items[0]" % (nv, i)]
+            elif k == "dict_append":
+                body += ['dq%d = {"q": []}' % i, 'dq%d["q"].append(%s)' % (i, cur), '%s = dq%d["q"][0]' % (nv, i)]
+            elif k == "method_store":
+                body += ["om%d = Box()" % i, "om%d.put(%s)" % (i, cur), "%s = om%d.f" % (nv, i)]
+            elif k == "alias_field":
+                body += ["oa%d = Box()" % i, "ob%d = oa%d" % (i + 50, i), "ob%d.f = %s" % (i + 50, cur), "%s = oa%d.f" % (nv, i)]
             elif k == "loop_once":
                 body += ['%s = "clean"' % nv, "for i%d in range(1):" % i, "    %s = %s" % (nv, cur)]
             else:
@@ -72,9 +84,11 @@ def universe(tier, seed):
     import random
     one = [Chain(s, c, k) for s in SOURCES for c in ([()] + [(x,) for x in CONNECTORS]) for k in SINKS]
     two = [Chain(s, c, k) for s in SOURCES for c in itertools.product(CONNECTORS, repeat=2) for k in SINKS]
+    # the same chains under a rule set in which every rule follows a same-name rule restricted to another file
+    split = [Chain(c.source, c.connectors, c.sink, split=True) for c in one if len(c.connectors) == 0 or c.connectors[0] in ("assign", "field", "call_return", "list_append")]
     if tier == "thorough":
-        return one + two
-    return one + random.Random(seed).sample(two, 60)
+        return one + split + two
+    return one + split + random.Random(seed).sample(two, 60)
 
 
 SETTINGS = {
@@ -82,5 +96,19 @@ SETTINGS = {
     "source.yaml": "- lang: python\n  rules:\n    - operation: call_stmt\n      name: source\n      tag: [\"%target\"]\n"
                    "    - operation: parameter_decl\n      name: p_src\n",
     "sink.yaml": "- lang: python\n  rules:\n    - operation: call_stmt\n      name: sink\n      target: [\\%arg0]\n      vuln_type: generic\n",
+    "propagation.yaml": "[]\n",
+}
+
+
+SETTINGS_SPLIT = {
+    "entry.yaml": SETTINGS["entry.yaml"],
+    "source.yaml": "- lang: python\n  rules:\n"
+                   "    - operation: call_stmt\n      name: source\n      unit_name: elsewhere.py\n      tag: [\"%target\"]\n"
+                   "    - operation: call_stmt\n      name: source\n      unit_name: p.py\n      tag: [\"%target\"]\n"
+                   "    - operation: parameter_decl\n      name: p_src\n      unit_name: elsewhere.py\n"
+                   "    - operation: parameter_decl\n      name: p_src\n      unit_name: p.py\n",
+    "sink.yaml": "- lang: python\n  rules:\n"
+                 "    - operation: call_stmt\n      name: sink\n      unit_name: elsewhere.py\n      target: [\\%arg1]\n      vuln_type: generic\n"
+                 "    - operation: call_stmt\n      name: sink\n      unit_name: p.py\n      target: [\\%arg0]\n      vuln_type: generic\n",
     "propagation.yaml": "[]\n",
 }
